@@ -204,6 +204,8 @@ def run(ctx):
                 f = P.c05_solution(o)
                 if f:
                     viol("solve -e %s wrote a solution that does not meet that error: %s" % (e, f[0]), {"args": ["solve", "-e", e, fn], "text": text})
+                elif o.get("MaxError") is not None and float(o["MaxError"]) != float(e):
+                    viol("solve -e %s enforces %r, not the value given" % (e, o["MaxError"]), {"args": ["solve", "-e", e, fn], "text": text})
         # -v changes only logging; -w is the structure with each bar's weight as a downward global load
         rv = cli.run(ctx, ["solve", "-v", fn], files={fn: text}, name="c13")
         runs += 1
